@@ -347,11 +347,24 @@ pub fn try_compile_command_to_dist(
 
 // TODO: Clone by assuming immutable/no GC for now
 // TODO: make fields non-public?
-// TODO: make archive_id validate that it's just a bunch of hex chars
 #[derive(Debug, Hash, Eq, PartialEq, Clone, Serialize, Deserialize)]
 #[serde(deny_unknown_fields)]
 pub struct Toolchain {
     pub archive_id: String,
+}
+
+impl Toolchain {
+    /// The archive id is the hex digest of the toolchain archive. It arrives from clients and is
+    /// used as a file and directory name (toolchain cache entry, unpacked toolchain, build
+    /// directories), so anything that is not a plain run of lowercase hex digits (at least the two
+    /// that name the cache subdirectories) must be refused before it gets near a path.
+    pub fn archive_id_is_valid(&self) -> bool {
+        self.archive_id.len() >= 2
+            && self
+                .archive_id
+                .bytes()
+                .all(|b| matches!(b, b'0'..=b'9' | b'a'..=b'f'))
+    }
 }
 
 #[derive(Hash, Eq, PartialEq, Clone, Copy, Debug, Ord, PartialOrd, Serialize, Deserialize)]
